@@ -123,3 +123,35 @@ def check_events(res, prop, tag, pname, events, expected_sites, optional_sites, 
         )
         return False
     return True
+
+
+def corner_traces(fn, key, jargs, picks=(0, -1), res=None):
+    """Traces of `fn` reached by scripted simulate taking menu entry `pick` at every site
+    (pick may be an int, or 'alt' = alternate 0/-1 along the run): complete, coherent traces
+    whose hidden Cond-branch values are real hidden draws."""
+    import jax
+    from genjax import seed as gseed
+    from mc import env
+    from mc.tree import _undecided, _with
+
+    sim = jax.jit(gseed(fn.simulate))
+    out = []
+    for pick in picks:
+        D = {}
+        n = 0
+        for _ in range(400):
+            tr, evs = env.run_recorded(sim, key, *jargs, mode="script", decisions=D)
+            if res is not None:
+                res.evaluations += 1
+            nxt = _undecided(evs)
+            if nxt is None:
+                break
+            ev, lane = nxt
+            m = std_menu(ev, lane)
+            idx = (0 if n % 2 == 0 else -1) if pick == "alt" else pick
+            D = _with(D, ev.key, lane, m[idx % len(m)][0])
+            n += 1
+        c = R.to_numpy(tr.get_choices())
+        if not any(tree_bits_equal(c, R.to_numpy(t.get_choices())) for t in out):
+            out.append(tr)
+    return out
